@@ -12,7 +12,7 @@
 //!          | (5 (t ...)) Multi | (6 (t ...)) Composite | (7 (t ...)) Directional
 //!          | (8 d key) DataKeySelector | (9 d h) AnnotationDataSelector (data handle h)
 //!   value  = (0) null | (1 text) | (2 bool) | (3 int) | (4 quarters) float q/4 | (5 k) NaN, inf, -inf
-//!          | (6 (values)) list | (7 rfc3339) datetime
+//!          | (6 (values)) list | (7 rfc3339) datetime | (9 neg digits zeros) the float that digits followed by zeros (decimal) parses to
 //!   config = (ann_iri set_iri res_iri (extra_context ...) auto_generated auto_generator ((uri prefix) ...) template|-1)
 //! Every live annotation of the resulting store is exported under the configuration.
 //! The model input is a dump of the store as the exporter reads it (see coq/Run/C17.v).
@@ -42,6 +42,14 @@ fn value_of(x: &Sx) -> Option<DataValue> {
         }),
         6 => DataValue::List(x.nth(1).list().iter().filter_map(value_of).collect()),
         7 => DataValue::Datetime(DateTime::parse_from_rfc3339(&x.nth(1).string()).ok()?),
+        9 => {
+            let mut t = x.nth(2).string();
+            for _ in 0..x.nth(3).int() {
+                t.push('0');
+            }
+            let f: f64 = t.parse().ok()?;
+            DataValue::Float(if x.nth(1).int() != 0 { -f } else { f })
+        }
         _ => return None,
     })
 }
@@ -58,13 +66,35 @@ fn value_sx(v: &DataValue) -> Sx {
                 l(vec![a(5), a(0)])
             } else if f.is_infinite() {
                 l(vec![a(5), a(if *f > 0.0 { 1 } else { 2 })])
-            } else {
+            } else if f.abs() < 1.0e15 && (*f * 4.0).fract() == 0.0 {
                 l(vec![a(4), a((*f * 4.0) as i64)])
+            } else {
+                // a whole float of any magnitude: the digits of its shortest representation and the zeros
+                // that follow them, taken from the exponent format (not from the Display under test)
+                let (mant, zeros) = whole_digits(f.abs());
+                l(vec![a(9), b(*f < 0.0), text(&mant), a(zeros as i64)])
             }
         }
         DataValue::List(v) => l(vec![a(6), l(v.iter().map(value_sx).collect())]),
         DataValue::Datetime(d) => l(vec![a(7), text(&d.to_rfc3339())]),
     }
+}
+
+/// 1.8446744073709552e19 -> ("18446744073709552", 3); only meaningful for whole floats (the
+/// generator produces no others beyond the grid of quarters)
+fn whole_digits(f: f64) -> (String, usize) {
+    let e = format!("{:e}", f);
+    let (m, ex) = e.split_once('e').unwrap_or((&e, "0"));
+    let mant: String = m.chars().filter(|c| c.is_ascii_digit()).collect();
+    let ex: i64 = ex.parse().unwrap_or(0);
+    let zeros = ex + 1 - mant.len() as i64;
+    (mant, if zeros > 0 { zeros as usize } else { 0 })
+}
+
+/// a number beyond 2^62: sign, number of digits, first 15 digits (see tree_sx in coq/Run/C17.v)
+fn big_number(neg: bool, digits: &str) -> Sx {
+    let first: String = digits.chars().take(15).collect();
+    l(vec![a(8), b(neg), a(digits.len() as i64), text(&first)])
 }
 
 fn selector_of<'a>(x: &Sx) -> SelectorBuilder<'a> {
@@ -130,14 +160,24 @@ fn tree_sx(v: &serde_json::Value) -> Sx {
         V::Null => l(vec![a(0)]),
         V::Bool(x) => l(vec![a(1), b(*x)]),
         V::Number(n) => {
+            // numbers are compared as numbers: integers exactly (beyond 2^62 as sign and decimal digits),
+            // an integer literal too long for 64 bits through the float serde_json read it as
+            const LIM: i64 = 4611686018427387904;
             if let Some(z) = n.as_i64() {
-                l(vec![a(2), a(z)])
-            } else if n.is_u64() {
-                l(vec![a(4)])
+                if z > -LIM && z < LIM {
+                    l(vec![a(2), a(z)])
+                } else {
+                    big_number(z < 0, &z.unsigned_abs().to_string())
+                }
+            } else if let Some(u) = n.as_u64() {
+                big_number(false, &u.to_string())
             } else {
                 let f = n.as_f64().unwrap_or(f64::NAN);
                 let q4 = f * 4.0;
-                if q4.is_finite() && q4.fract() == 0.0 && q4.abs() < 1e15 {
+                if f.is_finite() && f.fract() == 0.0 && f.abs() >= 4.0e18 {
+                    let (mant, zeros) = whole_digits(f.abs());
+                    big_number(f < 0.0, &format!("{}{}", mant, "0".repeat(zeros)))
+                } else if q4.is_finite() && q4.fract() == 0.0 && q4.abs() < 1e15 {
                     l(vec![a(3), a(q4 as i64)])
                 } else {
                     l(vec![a(4)])
@@ -191,6 +231,53 @@ fn obs_targets(o: &Option<String>) -> Sx {
                     json_targets(t, &mut v);
                 }
                 l(v)
+            }
+            Ok(_) => l(vec![]),
+            Err(_) => Sx::A(-2),
+        },
+    }
+}
+
+/// member names of the annotation object and of its body, compact names expanded through the
+/// prefix declarations of the exported @context; sorted, without duplicates
+fn obs_names(o: &Option<String>) -> Sx {
+    use serde_json::Value as V;
+    match o {
+        None => none(),
+        Some(s) if s.is_empty() => Sx::A(-3),
+        Some(s) => match serde_json::from_str::<V>(s) {
+            Ok(V::Object(m)) => {
+                let mut ctx: Vec<(String, String)> = Vec::new();
+                if let Some(V::Array(items)) = m.get("@context") {
+                    for it in items {
+                        if let V::Object(nm) = it {
+                            for (k, v) in nm.iter() {
+                                if let V::String(u) = v {
+                                    ctx.push((k.clone(), u.clone()));
+                                }
+                            }
+                        }
+                    }
+                }
+                let expand = |name: &str| -> String {
+                    if let Some((pre, rest)) = name.split_once(':') {
+                        if let Some((_, uri)) = ctx.iter().find(|(k, _)| k == pre) {
+                            return format!("{}{}", uri, rest);
+                        }
+                    }
+                    name.to_string()
+                };
+                let names = |mm: &serde_json::Map<String, V>| -> Sx {
+                    let mut v: Vec<String> = mm.keys().map(|k| expand(k)).collect();
+                    v.sort_by(|x, y| x.as_bytes().cmp(y.as_bytes()));
+                    v.dedup();
+                    l(v.iter().map(|x| text(x)).collect())
+                };
+                let body = match m.get("body") {
+                    Some(V::Object(bm)) => names(bm),
+                    _ => l(vec![]),
+                };
+                l(vec![names(&m), body])
             }
             Ok(_) => l(vec![]),
             Err(_) => Sx::A(-2),
@@ -368,6 +455,7 @@ impl Ctx {
                 None => none(),
             });
             obs.push(obs_targets(&out));
+            obs.push(obs_names(&out));
         }
         (l(vec![view, cfgx.clone(), l(cases)]), obs, nontrivial)
     }
@@ -424,6 +512,27 @@ fn value_pool(thorough: bool) -> Vec<Sx> {
     for q4 in [0i64, 1, 2, 3, 4, -1, -2, -6, 10, 401, -1000003, 4000000] {
         v.push(l(vec![a(4), a(q4)]));
     }
+    // whole floats around and beyond the range of 64-bit integers, both signs (digits, zeros)
+    for (neg, digits, zeros) in [
+        (0, "9007199254740992", 0),      // 2^53
+        (0, "4611686018427387904", 0),   // 2^62
+        (0, "9223372036854774784", 0),   // the largest float below 2^63
+        (0, "9223372036854775808", 0),   // 2^63
+        (1, "9223372036854775808", 0),   // -2^63
+        (1, "9223372036854777856", 0),   // the next float below -2^63
+        (0, "1", 19),                    // 1e19
+        (1, "1", 19),
+        (0, "18446744073709551616", 0),  // 2^64
+        (0, "602214076", 15),            // 6.02214076e23
+        (1, "602214076", 15),
+        (0, "1", 22),
+        (0, "1", 300),
+        (1, "1", 300),
+        (0, "123456789012345678", 2),
+    ] {
+        v.push(l(vec![a(9), a(neg), s(digits), a(zeros)]));
+    }
+    v.push(l(vec![a(6), l(vec![l(vec![a(4), a(8)]), l(vec![a(9), a(0), s("1"), a(20)]), l(vec![a(9), a(1), s("1"), a(20)])])]));
     for t in string_pool().into_iter().chain(iri_like_pool(thorough)) {
         v.push(l(vec![a(1), s(t)]));
     }
@@ -450,11 +559,14 @@ fn id_pool() -> Vec<&'static str> {
 }
 
 fn key_pool() -> Vec<&'static str> {
-    vec!["k", "key two", "say \"x\"", "a\\b", "t\tk", "é😀", "type", "id", "value", "purpose", "http://ex.org/ns/pred", "body", "target", "c\u{2}"]
+    vec!["k", "pos", "key two", "say \"x\"", "a\\b", "t\tk", "é😀", "type", "id", "value", "purpose", "http://ex.org/ns/pred", "body", "target", "c\u{2}"]
 }
 
 fn set_pool() -> Vec<&'static str> {
-    vec!["myset", ANNO_NS, ANNO_CTX, "http://ex.org/ns/", "http://ex.org/ns#", "urn:set", "s \"q\"", "b\\s", "é😀"]
+    vec![
+        "myset", ANNO_NS, ANNO_CTX, "http://ex.org/ns/", "http://ex.org/ns#", "urn:set", "s \"q\"", "b\\s", "é😀", "http://example.org/vocab",
+        "http://example.org/vocab/", "http://example.org/terms#", "http://example.org/terms",
+    ]
 }
 
 fn cfg(ann: &str, set: &str, res: &str, extra: &[&str], generated: bool, generator: bool, ns: &[(&str, &str)], tpl: Option<&str>) -> Sx {
@@ -485,6 +597,11 @@ fn config_pool() -> Vec<Sx> {
         cfg("urn:a:", "_:", "http://example.org/r", &["http://example.org/ctx.jsonld"], false, true, &[("http://ex.org/ns/", "ex")], Some("https://textsurf/{resource}?b={begin}&e={end}&again={begin}")),
         cfg("_:", "_:", "_:", &[], true, true, &[], None),
         cfg("_:", "_:", "_:", &[], false, false, &[], Some("fixed")),
+        // namespaces whose IRI does not end in a separator: the separator into_iri() puts between the
+        // data set and the key is then the first character of the compact name ("ex:/pos")
+        cfg("_:", "_:", "_:", &[], false, false, &[("http://example.org/vocab", "ex"), ("http://example.org/terms", "t")], None),
+        cfg("_:", "http://example.org", "_:", &[], false, false, &[("http://example.org", "root")], None),
+        cfg("_:", "_:", "_:", &["http://example.org/ctx.jsonld"], false, true, &[("http://example.org/vocab/", "exs"), ("http://example.org/vocab", "ex"), ("http://example.org/terms#", "ts"), ("urn:set", "u")], Some("{resource}/{begin}/{end}")),
     ]
 }
 
@@ -528,7 +645,7 @@ fn d(st: &str, k: &str, v: Sx) -> (String, String, Sx) {
 
 fn emit(out: &mut Out, ctx: &Ctx, req: Sx, key: &str) {
     let (i, o, nt) = ctx.exec(&req);
-    out.count_n(key, (o.len() / 5) as u64);
+    out.count_n(key, (o.len() / 6) as u64);
     out.case(&i, &o, nt, &req);
 }
 
@@ -761,6 +878,6 @@ pub fn generate(out: &mut Out, tier: &str, seed: u64) {
     }
 }
 
-pub const RULE: &str = "Stores are built through the public API (add_resource, add_dataset, annotate with every selector kind incl. the internal ranged ones that annotate() produces, remove_annotation) and every live annotation is exported with to_webannotation() under a configuration. Exhaustive part: every value of a pool (null, booleans, ints incl. +-(2^62-1), floats on the grid of quarters, 30 strings with quotes, backslashes, all kinds of control characters, DEL/C1, non-BMP, IRIs and near-IRIs, the same scheme x invalid-character strings as for identifiers, datetimes, nested lists) x every one of 10 configurations (prefixes, extra contexts, namespaces, target templates, automatic generated/generator) under a plain key, a namespaced key, a key of the anno namespace and as main-level predicate; every subset of the five main-level predicates x body present/absent x 3 configurations, with and without annotation id; every identifier of a pool of 17 (quotes, backslashes, controls, non-BMP, IRIs, template variables) plus every scheme is_iri() knows and near misses (_ http https urn file _x '_ ') x an invalid character (quote, backslash, control, space; after the colon, in the middle, at the end) as resource, annotation, data set and key identifier in a store with all selector kinds x every configuration; every key of 14 x every set id of 9 x every configuration; the known classes (non-finite floats, configuration strings that need escaping, duplicate member names). Then seeded random stores (1-3 resources, 2-9 annotations with random selector trees up to depth 2, 0-3 data items, removals) under a random configuration. Per exported annotation 5 sub-cases: tree (serde_json on the real output vs intended tree), this development's recogniser vs serde_json on the real output, token-equality of the model's string with the real output, text targets of the view vs annotation.textselections(), source/selector objects of the real output (serde_json) in order vs those text targets. Non-trivial: at least one export parsed as JSON. distinct = distinct model inputs.";
+pub const RULE: &str = "Stores are built through the public API (add_resource, add_dataset, annotate with every selector kind incl. the internal ranged ones that annotate() produces, remove_annotation) and every live annotation is exported with to_webannotation() under a configuration. Exhaustive part: every value of a pool (null, booleans, ints incl. +-(2^62-1), floats on the grid of quarters, 30 strings with quotes, backslashes, all kinds of control characters, DEL/C1, non-BMP, IRIs and near-IRIs, the same scheme x invalid-character strings as for identifiers, datetimes, nested lists) x every one of 10 configurations (prefixes, extra contexts, namespaces, target templates, automatic generated/generator) under a plain key, a namespaced key, a key of the anno namespace and as main-level predicate; every subset of the five main-level predicates x body present/absent x 3 configurations, with and without annotation id; every identifier of a pool of 17 (quotes, backslashes, controls, non-BMP, IRIs, template variables) plus every scheme is_iri() knows and near misses (_ http https urn file _x '_ ') x an invalid character (quote, backslash, control, space; after the colon, in the middle, at the end) as resource, annotation, data set and key identifier in a store with all selector kinds x every configuration; every key of 14 x every set id of 9 x every configuration; the known classes (non-finite floats, configuration strings that need escaping, duplicate member names). Then seeded random stores (1-3 resources, 2-9 annotations with random selector trees up to depth 2, 0-3 data items, removals) under a random configuration. Per exported annotation 5 sub-cases: tree (serde_json on the real output vs intended tree), this development's recogniser vs serde_json on the real output, token-equality of the model's string with the real output, text targets of the view vs annotation.textselections(), source/selector objects of the real output (serde_json) in order vs those text targets, member names of the annotation object and its body expanded through the exported @context vs the full predicate IRIs. Numbers are compared as numbers (integers exactly, also beyond 64 bits); float values include whole floats around and beyond 2^63 of both signs. Non-trivial: at least one export parsed as JSON. distinct = distinct model inputs.";
 
 pub const EXHAUSTIVE: bool = true;
